@@ -7,22 +7,22 @@ def build(bin_step, py_step, miri_step, fuzz_step):
     dbg = lambda name, prop=None: bin_step(name, features=("konst_debug",), tiers=("thorough",), prop=prop)
     S["C02"] = [bin_step("c02"), bin_step("c02", release=True)]
     S["C03"] = [bin_step("c03"), bin_step("c03", features=("konst_debug",)), bin_step("c03", release=True), fuzz_step("c03_str", 2000000)]
-    S["C04"] = [bin_step("c04"), bin_step("c04", release=True), dbg("c04"), fuzz_step("c04_find", 2000000)]
-    S["C05"] = [bin_step("c05"), bin_step("c05", release=True), dbg("c05"), fuzz_step("c05_trim", 2000000)]
+    S["C04"] = [bin_step("c04"), bin_step("c04", release=True), dbg("c04"), fuzz_step("c04_find", 2000000), py_step("gen_deep")]
+    S["C05"] = [bin_step("c05"), bin_step("c05", release=True), dbg("c05"), fuzz_step("c05_trim", 2000000), py_step("gen_deep")]
     S["C07"] = [bin_step("c07"), bin_step("c07", release=True), dbg("c07")]
     S["C08"] = [bin_step("c08"), bin_step("c08", release=True)]
     S["C09"] = [bin_step("c09"), bin_step("c09", release=True)]
-    S["C12"] = [bin_step("c12"), bin_step("c12", release=True), dbg("c12"), fuzz_step("c12_parse", 2000000)]
-    S["C16"] = [bin_step("c16"), bin_step("c16", release=True)]
-    S["C06"] = [bin_step("c06"), bin_step("c06", release=True), dbg("c06"), fuzz_step("c06_split", 2000000)]
+    S["C12"] = [bin_step("c12"), bin_step("c12", release=True), dbg("c12"), fuzz_step("c12_parse", 2000000), py_step("gen_deep")]
+    S["C16"] = [bin_step("c16"), bin_step("c16", release=True), py_step("gen_deep")]
+    S["C06"] = [bin_step("c06"), bin_step("c06", release=True), dbg("c06"), fuzz_step("c06_split", 2000000), py_step("gen_deep")]
     S["C13"] = [bin_step("c13"), bin_step("c13", release=True), dbg("c13"), fuzz_step("c13_ops", 2000000)]
     S["C14"] = [bin_step("c13", prop="C14"), bin_step("c13", release=True, prop="C14"), dbg("c13", prop="C14"), fuzz_step("c13_ops", 2000000)]
-    S["C20"] = [bin_step("c20"), bin_step("c20", release=True), py_step("gen_concat"), py_step("gen_concat", tiers=("thorough",), release=True)]
+    S["C20"] = [bin_step("c20"), bin_step("c20", release=True), py_step("gen_concat"), py_step("gen_concat", tiers=("thorough",), release=True), py_step("gen_deep")]
     S["C11"] = [bin_step("c11"), bin_step("c11", release=True), py_step("gen_closure_exits"), py_step("gen_closure_exits", release=True), py_step("gen_collect"), py_step("gen_collect", release=True), miri_step("c11", tiers=("thorough",)), py_step("gen_closure_exits", tiers=("thorough",), miri=True)]
-    S["C15"] = [bin_step("c11", prop="C15"), bin_step("c11", prop="C15", release=True), py_step("gen_destructure"), py_step("gen_destructure", tiers=("thorough",), release=True), miri_step("c11", tiers=("thorough",)), py_step("gen_destructure", tiers=("thorough",), miri=True)]
+    S["C15"] = [bin_step("c11", prop="C15"), bin_step("c11", prop="C15", release=True), py_step("gen_destructure"), py_step("gen_destructure", miri=True, only_packed=True), py_step("gen_destructure", tiers=("thorough",), release=True), miri_step("c11", tiers=("thorough",)), py_step("gen_destructure", tiers=("thorough",), miri=True)]
     S["C19"] = [bin_step("c19"), bin_step("c19", release=True), py_step("gen_rebind"), py_step("gen_rebind", tiers=("thorough",), release=True)]
     S["C10"] = [py_step("gen_chain"), py_step("gen_chain", release=True)]
     S["C17"] = [py_step("gen_reject"), py_step("gen_reject", release=True)]
     S["C18"] = [py_step("gen_parser_method"), py_step("gen_parser_method", tiers=("thorough",), release=True)]
-    S["C01"] = [bin_step("c01"), bin_step("c01", features=("konst_debug",)), bin_step("c01", release=True), bin_step("c11", prop="C01"), py_step("gen_const"), py_step("gen_const", release=True), miri_step("c01"), miri_step("c11", tiers=("thorough",))]
+    S["C01"] = [bin_step("c01"), bin_step("c01", features=("konst_debug",)), bin_step("c01", release=True), bin_step("c11", prop="C01"), py_step("gen_const"), py_step("gen_const", release=True), py_step("gen_closure_exits"), py_step("gen_closure_exits", tiers=("thorough",), release=True), py_step("gen_destructure", miri=True, only_packed=True), miri_step("c01"), miri_step("c11", tiers=("thorough",))]
     return S
